@@ -209,8 +209,9 @@ Fixpoint stream_loop (fuel : nat) (alpha mx : Q) (exc_at : Q -> bool) (wake : Q 
       end
   end.
 
-(** read(amount), up to the point where the loop is entered: [None] = the read
-    goes straight to the wrapped file object. *)
+(** read(amount), up to the point where the loop is entered: [false] = the
+    read goes straight to the wrapped file object, [true] = the loop is
+    entered with the returned [s_seen] as the amount to consume. *)
 Definition read_enter (thr amount : Z) (st : stream) : stream * bool :=
   if negb (s_enabled st) then (st, false)
   else let seen := (s_seen st + amount)%Z in
